@@ -94,6 +94,7 @@ Definition parse_event (v : val) : option event :=
   | VL [VN 12; VB cid; VN ptype; VN pid; VN reason] => Some (EAckSent cid ptype pid reason)
   | VL [VN 13; VB cid] => Some (EProcessed cid)
   | VL [VN 14; VB cid] => Some (ESuperseded cid)
+  | VL [VN 15; VB cid] => Some (ECleanStart cid)
   | _ => None
   end.
 
